@@ -3,7 +3,7 @@ import math
 
 COQ_FILES = ["gen/Gen_sim.v", "theories/Sim.v", "props/C19.v"]
 THEOREMS = [("DVProps.C19", n) for n in ("C19_exponential", "C19_gaussian", "C19_reciprocal", "C19_reverse",
-                                         "C19_reverse_docstring_refuted", "C19_squash_logistic",
+                                         "C19_documented_formulas_are_computed", "C19_squash_logistic",
                                          "C19_squash_exponential", "C19_squash_gaussian")]
 TRUSTED_BASE = [
     "Coq 8.16.1 kernel; standard-library real numbers (axioms as reported by Print Assumptions: "
@@ -141,7 +141,7 @@ def formula(case, x, r, x0):
         if m == "reciprocal":
             return None if a is None and case["mode"] != "default" and case["mode"] != "explicit" else 1.0 / (r + x * (a or 1))
         if m == "reverse":
-            return r - x          # the DOCUMENTED formula
+            return (r - x) / r    # the documented formula (docstring repaired; regenerated into Gen_sim.doc_reverse)
     base = case.get("base")
 
     def pw(y):
